@@ -104,12 +104,12 @@ def sample(gen, cfgs_a, n, sd, stratify=True, pairs=True):
     # three variables in one model (shared subexpressions, mixed contexts, several constraints of a type)
     bypat = {}
     for i, g in enumerate(gen):
-        if g["kind"] in ("num", "log", "nest"):
+        if g["kind"] in ("num", "log", "nest", "cone"):
             bypat.setdefault(tuple(g["pat"]), []).append(i)
     glist = []
     for j, i in enumerate(picks):
         g = gen[i]
-        if pairs and j % 4 == 3 and g["kind"] in ("num", "log", "nest"):
+        if pairs and j % 4 == 3 and g["kind"] in ("num", "log", "nest", "cone"):
             g = compose(g, gen[rnd.choice(bypat[tuple(g["pat"])])])
         glist.append(g)
     cases = []
